@@ -244,6 +244,11 @@ def rule_closed_forms(repo: Repo, rep: Report) -> None:
         s, d, _ = classify(b.test, ["element.value == self.value", "element == self"])
         rep.add("CLOSED-FORM", fi, f"conjugate cycle closes: if {unparse(b.test)}: break", s, d, node=b)
 
+    # --- FiniteBifield.get_minimal_polynomials: the table of all minimal polynomials, however it is assembled
+    fi = repo.func(ALG, "FiniteBifield.get_minimal_polynomials")
+    tst, tdetail = minpoly_table_evaluated(fi)
+    rep.add("KERNEL", fi, "get_minimal_polynomials tabulated for GF(4), GF(8), GF(16), GF(64): entry i = minimal polynomial of element i", tst, tdetail, node=fi.node)
+
     # --- BinaryPolynomial.gcd: Euclid
     fi = repo.func(ALG, "BinaryPolynomial.gcd")
     wl = [s for s in stmts_of(fi.body) if isinstance(s, ast.While)]
@@ -533,6 +538,39 @@ def conjugates_tabulated(repo: Repo, fi: FuncInfo):
                 return VIOLATION, f"conjugates of the element {v:#b} of GF(2^{m}) are returned as {[x.value for x in got]}; the orbit under squaring is {want} (the minimal polynomial built from them is not the least-degree one)"
             n += 1
     return OK, f"equals the orbit under squaring for all {n} elements (zero included)"
+
+
+def minpoly_table_evaluated(fi: FuncInfo):
+    """Run FiniteBifield.get_minimal_polynomials with the field and its elements modelled by gf2.FieldModel / FieldElem (whose
+    own minimal_polynomial() is the product of (X + c) over the conjugates): the table must have exactly the keys
+    1..2^m - 1 and entry i must be the minimal polynomial of element i.  GF(64) has proper subfields GF(4) and GF(8)."""
+    from ..frag import FragRaise, FragReturn, run_fragment
+
+    count = 0
+    for m, mod in ((2, 0b111), (3, 0b1011), (4, 0b10011), (6, 0b1000011)):
+        field = gf2.FieldModel(m, mod)
+        try:
+            run_fragment(fi.body, {"self": field}, {}, max_steps=800000, ctors={"BinaryPolynomial": gf2.BP})
+            return UNDECIDED, "no value returned"
+        except FragReturn as r:
+            tab = r.value
+        except FragRaise:
+            return VIOLATION, f"building the table of minimal polynomials of GF(2^{m}) raises"
+        except (Unfoldable, TypeError, IndexError, ArithmeticError, ZeroDivisionError) as exc:
+            return UNDECIDED, f"not evaluable ({exc})"
+        if not isinstance(tab, dict):
+            return UNDECIDED, "result is not a dictionary"
+        if sorted(tab) != list(range(1, 1 << m)):
+            return VIOLATION, f"GF(2^{m}): the table has the keys {sorted(tab)[:6]}... ({len(tab)} entries) instead of every non-zero element 1..{(1 << m) - 1}"
+        for i in range(1, 1 << m):
+            want = gf2.FieldElem(field, i).minimal_polynomial()
+            got = tab[i]
+            if not isinstance(got, gf2.BP):
+                return UNDECIDED, f"entry {i} is not a polynomial object"
+            if got.value != want.value:
+                return VIOLATION, f"GF(2^{m}), element {i:#b}: the table holds {got.value:#b} (degree {got.degree}); its minimal polynomial is {want.value:#b} (degree {want.degree}): generator polynomials built as the lcm of table entries get a spurious factor / the wrong degree"
+            count += 1
+    return OK, f"all {count} entries equal the product of (X + c) over the conjugates of the element"
 
 
 def gcd_tabulated(fi: FuncInfo):
